@@ -145,13 +145,28 @@ pub fn apply_tagged_body_filters(doc: &str, filters: &[Value]) -> String {
             "append_text" => out.push_str(f["content"].as_str().unwrap_or("")),
             "prepend_text" => out = format!("{}{}", f["content"].as_str().unwrap_or(""), out),
             "append_child" => {
-                if let Some(i) = out.find("</body>") {
-                    out.insert_str(i, f["value"].as_str().unwrap_or(""));
+                let last = f["element_tree"].as_array().and_then(|a| a.last()).and_then(|v| v.as_str()).unwrap_or("body");
+                // with a selector the filter acts only when no element of the target matches it (here: meta[name="d"])
+                let selector = f["css_selector"].as_str().unwrap_or("");
+                let blocked = !selector.is_empty() && {
+                    let open = format!("<{last}>");
+                    let close = format!("</{last}>");
+                    match (out.find(&open), out.find(&close)) {
+                        (Some(a), Some(b)) if a < b => out[a..b].contains("<meta name=\"d\""),
+                        _ => false,
+                    }
+                };
+                if !blocked {
+                    if let Some(i) = out.find(&format!("</{last}>")) {
+                        out.insert_str(i, f["value"].as_str().unwrap_or(""));
+                    }
                 }
             }
             "prepend_child" => {
-                if let Some(i) = out.find("<head>") {
-                    out.insert_str(i + "<head>".len(), f["value"].as_str().unwrap_or(""));
+                let last = f["element_tree"].as_array().and_then(|a| a.last()).and_then(|v| v.as_str()).unwrap_or("head");
+                let open = format!("<{last}>");
+                if let Some(i) = out.find(&open) {
+                    out.insert_str(i + open.len(), f["value"].as_str().unwrap_or(""));
                 }
             }
             "replace" => {
